@@ -27,6 +27,7 @@ ASSUME = [
     "the documented order is taken from the ignore crate's WalkBuilder documentation and the rg flag documentation",
     "situations the documentation does not settle are not generated: nested repositories, -g globs that could match directories, --no-ignore-parent together with a .git above the search root",
     "environment pinned: HOME/XDG point into the case directory, GIT_CONFIG_GLOBAL=/dev/null",
+    "--ignore-file rules anchored relative to the current directory are only generated with relative search roots (how they meet an absolute root is not documented)",
 ]
 
 EXTS = [".foo", ".bar", ".txt"]
@@ -144,7 +145,10 @@ class Model:
             elif src == "global":
                 v = file_verdict(c["rules"].get("global", []), abs_comps, is_dir)
             elif src == "explicit":
-                v = file_verdict(c["rules"].get("explicit", []), abs_comps, is_dir)
+                # relative to the current working directory
+                cw = c.get("cwd_comps", [])
+                rel = abs_comps[len(cw):] if abs_comps[:len(cw)] == cw else abs_comps
+                v = file_verdict(c["rules"].get("explicit", []), rel, is_dir)
             if v:
                 hits[src] = v
         whitelisted = False
@@ -317,8 +321,26 @@ def gen_case(rng):
     type_neg = (not type_sel) and rng.chance(1, 8)
     max_depth = rng.pick([None, None, None, 1, 2])
     form = rng.below(5)
+    # --ignore-file rules "are matched relative to the current working
+    # directory", wherever the rules file itself lies: sometimes it lies in a
+    # directory of the tree and carries a rule anchored (relative to the cwd)
+    # at an entry below that very directory
+    cwd_comps = [] if form in (1, 2) else ["w"]
+    explicit_at = None
+    # (not with an absolute search root: how a cwd-relative anchored rule meets
+    # an absolute path is not documented - ripgrep does not relate them)
+    if rules.get("explicit") and not globs and form != 2 and rng.chance(1, 2):
+        pre = "/".join(cwd_comps) + "/" if cwd_comps else ""
+        subdirs2 = sorted(p for p, k in tree.items() if k == "d" and p.startswith("w/") and "/.git" not in p)
+        if subdirs2:
+            explicit_at = rng.pick(subdirs2)
+            below = sorted(p for p, k in tree.items() if p.startswith(explicit_at + "/") and "/.git" not in p)
+            if below and rng.chance(3, 4):
+                tgt = rng.pick(below)[len(pre):]
+                rules["explicit"].append(rng.pick(["/", ""]) + tgt if "/" in tgt else "/" + tgt)
     case = {"tree": tree, "git_at": git_at, "rules": rules, "flags": flags, "globs": globs,
-            "type_sel": type_sel, "type_neg": type_neg, "max_depth": max_depth, "form": form}
+            "type_sel": type_sel, "type_neg": type_neg, "max_depth": max_depth, "form": form,
+            "cwd_comps": cwd_comps, "explicit_at": explicit_at}
     return case
 
 
@@ -382,8 +404,14 @@ def cli_case(case0, env):
     argv = ["--files", "--no-config", "-j1", "--null"] + case["flags"]
     if case["rules"].get("explicit"):
         ef = os.path.join(env.tmp, "explicit.ign")
+        if case.get("explicit_at"):
+            ef = os.path.join(T, case["explicit_at"], "zz-rules.ign")
+            case["tree"][case["explicit_at"] + "/zz-rules.ign"] = "f"
         with open(ef, "w") as f:
             f.write("\n".join(case["rules"]["explicit"]) + "\n")
+        if case.get("explicit_at") and rng.chance(2, 3):
+            # named relative to the current directory, as one would type it
+            ef = os.path.relpath(ef, os.path.join(T, *case.get("cwd_comps", [])))
         argv += ["--ignore-file", ef]
     for g in case["globs"]:
         argv += ["-g", g]
